@@ -12,7 +12,6 @@ package main
 import (
 	"encoding/json"
 	"fmt"
-	"os"
 	"sort"
 	"strings"
 
@@ -930,14 +929,14 @@ entity Team in [Group, Org] { name: String, age?: String, r: { a: String } } tag
 entity Doc in [Team] { owner: User, name?: String };
 action "grp";
 action "grp2" in ["grp"];
-action "view" in ["grp2"] appliesTo { principal: [User, Team], resource: [Doc, Team], context: { n: Long, s: String, u: User, us: Set<User> } };
-action "edit" appliesTo { principal: [User], resource: [Doc], context: { n: Long, s: String, u: User, us: Set<User> } };
+action "view" in ["grp2"] appliesTo { principal: [User, Team], resource: [Doc, Team], context: { n: Long, s: String, u: User, us: Set<User>, o?: Long } };
+action "edit" appliesTo { principal: [User], resource: [Doc], context: { n: Long, s: String, u: User, us: Set<User>, o?: Long } };
 `
 
 // c15ModelProbes: hand-written corner cases of the entity constructs (entity LUBs with several elements, the static
 // foldings of `in` / `is`, action `in` with set operands, tag capabilities, every scope form), sent through the
 // `validate` correspondence in both modes.  Only the accept/reject decision of the Go validator is compared.
-func c15ModelProbes(c *vh.Ctx, lines *c15Lines) {
+func c15ModelProbes(c *vh.Ctx, g *vh.Gen, lines *c15Lines) {
 	var sc schema.Schema
 	if err := sc.UnmarshalCedar([]byte(c15ProbeSchema)); err != nil {
 		c.Report(vh.Finding{Class: "corpus-schema", What: "probe schema: " + err.Error(), Check: "self-test", NoInput: true})
@@ -960,6 +959,20 @@ func c15ModelProbes(c *vh.Ctx, lines *c15Lines) {
 		s.ActionUIDs = append(s.ActionUIDs, uid)
 	}
 	sort.Slice(s.ActionUIDs, func(i, j int) bool { return s.ActionUIDs[i].ID < s.ActionUIDs[j].ID })
+	for _, uid := range s.ActionUIDs {
+		if a := rs.Actions[uid]; a.AppliesTo != nil {
+			for _, pt := range a.AppliesTo.Principals {
+				for _, rt := range a.AppliesTo.Resources {
+					s.Envs = append(s.Envs, vh.C15Env{Action: uid, PType: pt, RType: rt, Ctx: a.AppliesTo.Context})
+				}
+			}
+		}
+	}
+	// the probes also go through the evaluation oracle, with the entity ids renamed to the one the generated stores connect
+	cases := c15Cases(c, g, s, 5)
+	stP := newC15Stats()
+	toA := strings.NewReplacer(`::"g"`, `::"a"`, `::"o"`, `::"a"`, `::"d"`, `::"a"`, `::"u"`, `::"a"`, `::"t"`, `::"a"`)
+	nProbe := 0
 	senc := vh.EncC15Schema(s)
 	lub := `(if context.n > 0 then principal else resource)`
 	bodies := []string{
@@ -994,6 +1007,8 @@ func c15ModelProbes(c *vh.Ctx, lines *c15Lines) {
 		`action.hasTag("k")`, `principal.col.hasTag("k")`, `principal.hasTag("k") && principal has mgr && principal.mgr.getTag("k") == 1`,
 		`principal has mgr && principal.mgr.hasTag("k") && principal.mgr.getTag("k") == 1`,
 	}
+	bodies = append(bodies, c15FoldingProbes()...)
+	bodies = append(bodies, c15ActionInProbes()...)
 	scopes := []string{
 		`principal, action, resource`, `principal == User::"u", action, resource`, `principal == Nope::"u", action, resource`, `principal == Color::"red", action, resource`,
 		`principal == Action::"view", action, resource`, `principal == Action::"nope", action, resource`,
@@ -1032,7 +1047,21 @@ func c15ModelProbes(c *vh.Ctx, lines *c15Lines) {
 			c.Count("probe"+lines.b.Key(idx), true)
 			c.Dist("probe:go-" + impl)
 		}
+		var cq cedar.Policy
+		if err := cq.UnmarshalCedar([]byte(toA.Replace(text))); err != nil {
+			return
+		}
+		q := (*ast.Policy)(cq.AST())
+		nProbe++
+		okS, _ := c15Accepts(vs, q)
+		okP, _ := c15Accepts(vp, q)
+		if okS || okP { // same policy, same data in both modes: evaluate once, in the stricter mode that accepts
+			c15RunPolicy(c, stP, s, okS, vh.C15Policy{AST: q}, cases, fmt.Sprintf("probe%d", nProbe))
+		}
 	}
+	defer func() {
+		c.Res.Notes = append(c.Res.Notes, fmt.Sprintf("probes: %d hand-written policies on the probe schema (both modes to the Lean model); the accepted ones evaluated on %d (environment, request, store) cases each: %d evaluations, %d failures", nProbe, 5*len(s.Envs), stP.evals, stP.failures))
+	}()
 	for _, b := range bodies {
 		add(`permit(principal, action, resource) when { ` + b + ` };`)
 		add(`permit(principal is User, action == Action::"view", resource is Doc) when { ` + b + ` };`)
@@ -1040,6 +1069,9 @@ func c15ModelProbes(c *vh.Ctx, lines *c15Lines) {
 	for _, sc := range scopes {
 		add(`permit(` + sc + `) when { principal has name };`)
 		add(`permit(` + sc + `);`)
+	}
+	for _, t := range c15ClauseProbes() {
+		add(t)
 	}
 }
 
@@ -1158,13 +1190,13 @@ func c15EnumPath(c *vh.C15Gen, et types.EntityType) (ast.IsNode, bool) {
 
 func runC15(c *vh.Ctx) {
 	g := vh.NewGen(c.Rng)
-	c.Res.Rule = "direct oracle: random schemas (entity types with required/optional attributes of every type incl. nested records, sets, entity refs, extension types; tags; acyclic memberOf; enums; namespaces; common types; actions with appliesTo lists, context records, action groups) x type-directed policies (well-typed by construction + 12 near-miss kinds) over all operators -> kept iff validate.New(schema, mode).Policy accepts (strict and permissive counted separately) -> every (action, principal type, resource type) environment x conforming requests/stores (all-optional-present, all-absent, random; asserted through Validator.Request/Entities) -> Eval(PolicyToNode(policy)); failure = error kind outside {overflow, entity, ext-*}; distinct = distinct (policy, mode, environment, store); non-trivial = policy has a condition; plus the Lean fragment model's accept/reject decision against the Go validator (op validate)"
+	c.Res.Rule = "direct oracle: random schemas (entity types with required/optional attributes of every type incl. nested records, sets, entity refs, extension types; tags; acyclic memberOf; enums; namespaces; common types; actions with appliesTo lists, context records, action groups) x type-directed policies (well-typed by construction + 18 near-miss kinds) over all operators -> kept iff validate.New(schema, mode).Policy accepts (strict and permissive counted separately) -> every (action, principal type, resource type) environment x conforming requests/stores (all-optional-present, all-absent, random; asserted through Validator.Request/Entities) -> Eval(PolicyToNode(policy)); failure = error kind outside {overflow, entity, ext-*}; distinct = distinct (policy, mode, environment, store); non-trivial = policy has a condition; plus a focused stream (hierarchy-rich schemas: 5-7 entity types, memberOf chains several levels deep; policies of six near-miss families: `in` / `is..in` against a right operand whose entity LUB has several element types - reachable through the first/middle/last type of the sorted LUB, through the left type itself or not at all - guarding an ill-typed / unsafely accessing / well-typed operand through && , !..||, if; and singleton-typed tests around a has/hasTag guard - `h && false`, `false || (h && false)`, `h || true`, `!(h && false)`, True by a capability already held ... - whose then/else/right operands read the optional attribute or tag; attribute access / has on an if-then-else over record types of different widths - either branch the wider one - or over entity types that do not both declare the attribute; `in` whose right operand is a set of sets of entities, a record, a non-entity, or whose left operand is not an entity; `action in [..]` against set literals mixing action / entity literals with non-literal elements of action type; policies with several when/unless clauses in every combination and order, one a has/hasTag guard, another one reading the optional attribute or tag) through the same validate-then-evaluate step; hand-written probes of both families on a fixed schema, evaluated as well; plus the Lean model's accept/reject decision against the Go validator for every input of every stream (op validate)"
 
 	c15Corpus(c)
 	c15EntityCorpus(c)
 
 	lines := &c15Lines{b: &vh.Batch{}}
-	c15ModelProbes(c, lines)
+	c15ModelProbes(c, g, lines)
 	st := newC15Stats()
 	targetAccepted := c.N(3200, 100000)
 	polPerSchema := c.N(60, 120)
@@ -1190,64 +1222,11 @@ func runC15(c *vh.Ctx) {
 				mut = vh.C15Mutations[g.R.Intn(len(vh.C15Mutations))]
 			}
 			pol := g.C15GenPolicy(s, mut)
-			st.generated++
-			ops := c15PolicyOps(pol.AST)
-			okS, pnS := c15Accepts(vs, pol.AST)
-			okP, pnP := c15Accepts(vp, pol.AST)
-			if pnS != nil || pnP != nil {
-				c.Report(vh.Finding{Class: "validator-panic", What: fmt.Sprintf("Validator.Policy panicked: %v %v on %s", pnS, pnP, c15PolicyText(pol.AST)), Check: "oracle", Op: "validate",
-					Input: c15Input(s, pnS != nil, pol.AST, types.Request{}, nil)})
-				continue
-			}
-			if c.Thorough() == false || j%4 == 0 { // the model also decides the whole-validator stream where it can
-				lines.add(senc, true, pol.AST, map[bool]string{true: "accept", false: "reject"}[okS], "main")
-				lines.add(senc, false, pol.AST, map[bool]string{true: "accept", false: "reject"}[okP], "main")
-			}
-			mk := pol.Mut
-			if mk == "" {
-				mk = "none"
-			} else if !pol.Hit {
-				mk = "none(" + mk + " not applicable)"
-			}
-			st.mutGen[mk]++
-			for o := range ops {
-				st.gen[o]++
-			}
-			if !okS && !okP {
-				for o := range ops {
-					st.rej[o]++
-				}
-				continue
-			}
-			st.mutAcc[mk]++
-			if dbg := os.Getenv("VH_C15_DEBUG"); dbg != "" && strings.Contains(dbg, mk) && pol.Hit {
-				fmt.Fprintf(os.Stderr, "DEBUG accepted near-miss %s strict=%v perm=%v target=%s\n%s\n", mk, okS, okP, pol.Target, c15PolicyText(pol.AST))
-			}
-			st.accepted++
-			for o := range ops {
-				st.acc[o]++
-			}
-			if st.accepted <= 3 {
-				c.Sample(map[string]any{"op": "validate-then-eval", "schema": s.Text, "policy": c15PolicyText(pol.AST), "accepted_strict": okS, "accepted_permissive": okP, "near_miss": mk})
-			}
-			polKey := fmt.Sprintf("%d/%d", schemas, j)
-			if okS {
-				st.acceptedStrict++
-				c15RunPolicy(c, st, s, true, pol, cases, polKey)
-			}
-			if okP {
-				st.acceptedPerm++
-				if !okS {
-					c15RunPolicy(c, st, s, false, pol, cases, polKey)
-				} else {
-					// same policy, same data: evaluation is identical; only count the acceptance
-				}
-			}
-			if okS && !okP {
-				c.Dist("strict-accepts-permissive-rejects")
-			}
+			c15Process(c, st, lines, s, cases, vs, vp, senc, pol, fmt.Sprintf("%d/%d", schemas, j), !c.Thorough() || j%4 == 0, "main")
 		}
 	}
+	// hierarchy-rich schemas x the static-folding near-miss families (own statistics and self-tests)
+	c15Focus(c, g, lines)
 	// stores with lax conformance (separate stream, own classes)
 	c15LaxConformance(c, g, c.N(40, 400))
 
